@@ -39,7 +39,8 @@ fn gen_cmd(src: &mut Src, uniq: &mut u64, hashes: bool, type_changes: bool, expi
         2 => vec![b("SET"), skey, v, b(if src.chance(1, 2) { "NX" } else { "XX" })],
         3 => match src.below(4) { 0 => vec![b("SET"), skey, v, b("NX"), b("GET")], 1 => vec![b("SET"), skey, v, b("XX"), b("GET")], _ => vec![b("SET"), skey, v, b("GET")] },
         4 => if expiry { if src.chance(1, 2) { vec![b("SET"), skey, v, b("EX"), b(["100", "1", "0"][src.idx(3)])] } else { vec![b("SET"), skey, v, b("PX"), b(["100000", "1500", "500", "1"][src.idx(4)])] } } else { vec![b("SET"), skey, v] },
-        5 => vec![b("DEL"), skey],
+        // (now and then a command naming two keys: the node splits it into one replicated write per key)
+        5 => if focus == 0 && src.chance(1, 4) { let k2 = b(&format!("k{}", (k + 1) % 3)); if src.chance(1, 2) { vec![b("DEL"), skey, k2] } else { vec![b("MSET"), skey, v.clone(), k2, b(&format!("w{}", uniq))] } } else { vec![b("DEL"), skey] },
         6 => vec![b(["INCR", "DECR"][src.idx(2)]), b("ctr")],
         7 => vec![b(["INCRBY", "DECRBY"][src.idx(2)]), b("ctr"), b(&format!("{}", src.irange(1, 5)))],
         8 => vec![b("APPEND"), skey, b(&format!("+{}", uniq))],
